@@ -730,6 +730,21 @@ def solve_obligation(ob, symbols, timeout_ms=None):
     if r == z3.unknown:
         r = _check(s, timeout_ms // 4)
         backend = "z3"
+    if r == z3.unknown and not quant:
+        # nonlinear model search depends on the solver's random choices: two more attempts with other seeds (a `sat`
+        # or `unsat` from any attempt is a definite answer about the same formula)
+        for sd in (11, 23):
+            try:
+                s3 = z3.Then(z3.With("simplify", som=True), z3.With("qfnra-nlsat", seed=sd)).solver()
+                for p_ in ob.pc:
+                    s3.add(p_)
+                s3.add(neg)
+                r3 = _check(s3, min(4000, timeout_ms // 5))
+            except z3.Z3Exception:
+                break
+            if r3 != z3.unknown:
+                r, s, backend = r3, s3, "z3-nlsat(seed %d)" % sd
+                break
     if r == z3.unknown:
         rc = cvc5_check(s.to_smt2(), timeout_ms // 4)
         if rc == "unsat":
